@@ -286,6 +286,7 @@ type l1Cfg struct {
 	UeIPAlloc bool   `json:"ueip_alloc"`
 	Pool      string `json:"pool"`
 	EndMarker bool   `json:"end_marker"`
+	HbTimer   bool   `json:"hb_timer"` // heartbeat monitor enabled (interval one hour: it never fires inside a history)
 	AccessIP  string `json:"access_ip"`
 	CoreIP    string `json:"core_ip"`
 	N4Addr    string `json:"n4addr"`
@@ -302,6 +303,7 @@ type l1Event struct {
 	Hex   string   `json:"hex"`
 	Draws []uint64 `json:"draws"`
 	Fseid uint64   `json:"fseid"`
+	Quiet bool     `json:"q"` // long soak histories: no decoded view, no dumps for this event
 }
 
 type l1World struct {
@@ -356,6 +358,8 @@ func (w *l1World) boot() error {
 		maxReqRetries:    5,
 		respTimeout:      2 * time.Second,
 		readTimeout:      15 * time.Second,
+		enableHBTimer:    cfg.HbTimer,
+		hbInterval:       time.Hour,
 	}
 	if cfg.UeIPAlloc {
 		p, err := NewIPPool(cfg.Pool)
@@ -747,7 +751,9 @@ func (w *l1World) doEvent(ev l1Event) (obs map[string]interface{}) {
 			obs["draws"] = src.drawn
 			src.drawn = nil
 			src.queue = nil
-			obs["sem"] = l1Sem(raw, w.intern)
+			if !ev.Quiet {
+				obs["sem"] = l1Sem(raw, w.intern)
+			}
 			obs["connected"] = w.u.isConnected()
 		case "report":
 			if c, ok := w.conns[ev.Conn]; ok {
@@ -802,11 +808,18 @@ drain2:
 	}
 	obs["replies"] = replies
 	obs["cmds"] = w.srv.takeLog()
-	obs["tables"] = w.srv.snapshot()
-	obs["store"] = w.dumpStore()
-	obs["pools"] = w.dumpPools()
+	if ev.Quiet {
+		obs["cmds"] = len(obs["cmds"].([]l1Cmd))
+	} else {
+		obs["tables"] = w.srv.snapshot()
+		obs["store"] = w.dumpStore()
+		obs["pools"] = w.dumpPools()
+	}
 	markers := []interface{}{}
-	if w.b != nil && w.b.endMarkerChan != nil {
+	if w.b != nil && w.b.endMarkerChan != nil && !w.cfg.EndMarker {
+		// with end markers disabled the plug-in starts no sender: nobody drains the queue in production either
+		obs["em_queued"] = len(w.b.endMarkerChan)
+	} else if w.b != nil && w.b.endMarkerChan != nil {
 	drain:
 		for {
 			select {
